@@ -188,6 +188,15 @@ def run(ck: Check) -> int:
             sr.distinct = 1
         ck.search('parked-iterators', s_park)
 
+        def s_magic(sr):
+            sr.note = ('is_magic: ~2000 questions (fnmatch / glob, str / bytes, drive-shaped and plain patterns x each symbol flag x the three platform words) '
+                       'asked in three orders, each in a fresh interpreter: same answers (added after seeded change C19i: the bytes drive-symbol set was a '
+                       'module-level set that `|=` grew in place, so a BRACE / SPLIT question changed later answers)')
+            sr.evaluations = K9.is_magic_orders(w, lambda what, inp, exp, obs: ck.report(
+                Failing(what, inp, exp, obs, site='wcmatch/_wcparse.py:_get_magic_symbols / is_magic'), None))
+            sr.distinct = sr.evaluations // 3
+        ck.search('is_magic-call-orders', s_magic)
+
         def s_obj(sr):
             sr.note = ('WcMatcher (fnmatch.compile / glob.compile) and the inner WcRegexp: equal and hash-equal when built twice (cold '
                        'cache in between), pickle / copy / deepcopy round trips equal with unchanged behaviour, setattr raises, reuse '
